@@ -276,4 +276,150 @@ theorem compat_sound_union (env : Env) (ht : SubTrans env) (cands : List Spec) (
   simp only [hk, bne_self_eq_false, Bool.false_or] at hcc
   exact accepts_union_of_cand env cands f hf hs v hp c hcm (compat_sound env ht c b hcc hcb v hv)
 
+/-! ### Idempotence of `apply` for simple unions -/
+
+theorem vtUnion_mem_inv (cs : List Spec) (us : List Ty) (t' : Ty) (h1 : cs.all candOk = true)
+    (h2 : vtUnion cs = some us) (h3 : t' ∈ us) : ∃ d ∈ cs, leafTy d = some t' := by
+  induction cs generalizing us with
+  | nil => simp [vtUnion] at h2; subst h2; cases h3
+  | cons d ds ih =>
+    simp only [List.all_cons, Bool.and_eq_true] at h1
+    have hdok := h1.1
+    simp only [candOk, Bool.and_eq_true, Option.isSome_iff_exists] at hdok
+    obtain ⟨td, htd⟩ := hdok.1
+    obtain ⟨us', hus', _⟩ := vtUnion_leaf ds h1.2
+    simp only [vtUnion, vt_leaf d td htd, hus'] at h2
+    injection h2 with h2; subst h2
+    simp only [List.cons_append, List.nil_append, List.mem_cons] at h3
+    rcases h3 with h3 | h3
+    · subst h3; exact ⟨d, List.mem_cons_self, htd⟩
+    · obtain ⟨e, he, hte⟩ := ih us' h1.2 hus' h3
+      exact ⟨e, List.mem_cons_of_mem _ he, hte⟩
+
+theorem typeCheck_inst (env : Env) (ts : List Ty) (w : Val) (h : instOf env w ts = true) :
+    typeCheck env (some ts) w = .ok w := by
+  simp [typeCheck, h]
+
+/-- A non-frozen leaf applied to a proper value of its own type returns a proper value of the same
+Python type. -/
+theorem apply_leaf_ty (env : Env) (d : Spec) (t : Ty) (ht : leafTy d = some t)
+    (hf : d.flags.frozen = false) (p : Bool) (w w' : Val) (hp : Val.proper w)
+    (hi : Ty.sub env w.ty t = true) (h : apply env d p w = .ok w') :
+    w'.ty = w.ty ∧ Val.proper w' := by
+  have hinst : instOf env w [t] = true := by simp [instOf, hi]
+  cases d <;> simp [leafTy] at ht <;> subst ht <;> simp only [Spec.flags] at hf
+  · simp only [apply, gate_proper _ hf p w hp, typeCheck_inst env _ w hinst] at h
+    injection h with h; subst h; exact ⟨rfl, hp⟩
+  · simp only [apply, gate_proper _ hf p w hp, typeCheck_inst env _ w hinst, bind, Except.bind] at h
+    have := rangeCheck_id _ _ _ _ h; subst this; exact ⟨rfl, hp⟩
+  · simp only [apply, gate_proper _ hf p w hp, typeCheck_inst env _ w hinst, bind, Except.bind] at h
+    have := rangeCheck_id _ _ _ _ h; subst this; exact ⟨rfl, hp⟩
+  · simp only [apply, gate_proper _ hf p w hp, typeCheck_inst env _ w hinst, bind, Except.bind] at h
+    split at h
+    · split at h
+      · injection h with h; subst h; exact ⟨rfl, hp⟩
+      · cases h
+    · injection h with h; subst h; exact ⟨rfl, hp⟩
+  · simp only [apply, gate_proper _ hf p w hp, typeCheck_inst env _ w hinst, bind, Except.bind] at h
+    cases w <;> simp only [] at h <;> try (cases h)
+    rename_i xs
+    split at h
+    · cases h
+    · split at h
+      · injection h with h; subst h
+        exact ⟨rfl, by simp [Val.proper, Val.isMissing, Val.isNone]⟩
+      · cases h
+  · simp only [apply, gate_proper _ hf p w hp, typeCheck_inst env _ w hinst, bind, Except.bind] at h
+    cases w <;> simp only [] at h <;> try (cases h)
+    rename_i xs
+    split at h
+    · split at h
+      · cases h
+      · split at h
+        · cases h
+        · injection h with h; subst h
+          exact ⟨rfl, by simp [Val.proper, Val.isMissing, Val.isNone]⟩
+    · split at h
+      · cases h
+      · split at h
+        · cases h
+        · injection h with h; subst h
+          exact ⟨rfl, by simp [Val.proper, Val.isMissing, Val.isNone]⟩
+  · rename_i fields f
+    cases fields with
+    | none =>
+      simp only [apply, gate_proper _ hf p w hp, typeCheck_inst env _ w hinst] at h
+      injection h with h; subst h; exact ⟨rfl, hp⟩
+    | some fs =>
+      simp only [apply, gate_proper _ hf p w hp, typeCheck_inst env _ w hinst, bind, Except.bind] at h
+      cases w <;> simp only [] at h <;> try (cases h)
+      rename_i kvs
+      split at h
+      · cases h
+      · split at h
+        · cases h
+        · injection h with h; subst h
+          exact ⟨rfl, by simp [Val.proper, Val.isMissing, Val.isNone]⟩
+  · simp only [apply, gate_proper _ hf p w hp, typeCheck_inst env _ w hinst, bind, Except.bind] at h
+    split at h
+    · split at h
+      · cases h
+      · injection h with h; subst h; exact ⟨rfl, hp⟩
+    · injection h with h; subst h; exact ⟨rfl, hp⟩
+
+theorem fragList_mem (cs : List Spec) (h : fragList cs = true) (c : Spec) (hc : c ∈ cs) :
+    frag c = true := by
+  induction cs with
+  | nil => cases hc
+  | cons d ds ih =>
+    simp only [fragList, Bool.and_eq_true] at h
+    simp only [List.mem_cons] at hc
+    rcases hc with hc | hc
+    · subst hc; exact h.1
+    · exact ih h.2 hc
+
+/-- **Idempotence for simple unions** of fragment candidates (any flags on the union itself). -/
+theorem apply_idem_union (env : Env) (cands : List Spec) (f : Flags) (hs : simpleUnion cands = true)
+    (hfr : fragList cands = true) (p : Bool) (v v' : Val)
+    (h : apply env (.union cands f) p v = .ok v') : apply env (.union cands f) p v' = .ok v' := by
+  simp only [simpleUnion, Bool.and_eq_true] at hs
+  obtain ⟨hl, hd⟩ := hs
+  obtain ⟨ts, hts, hmem⟩ := vtUnion_leaf cands hl
+  simp only [apply] at h ⊢
+  refine gate_idem f p v v' _ (fun w w' hw hk => ?_) h
+  simp only [hts, bind, Except.bind] at hk ⊢
+  cases htc : typeCheck env (some ts) w with
+  | error e => simp [htc] at hk
+  | ok w1 =>
+    simp only [htc] at hk
+    obtain ⟨_, hp1⟩ := typeCheck_ok env (some ts) w w1 hw htc
+    -- `w1` is an instance of one of the candidate types
+    have hi1 : instOf env w1 ts = true := by
+      unfold typeCheck at htc
+      simp only at htc
+      split at htc
+      · injection htc with htc; subst htc; assumption
+      · split at htc
+        · rename_i hc
+          injection htc with htc; subst htc
+          exact (convert_inst env w _ ts hc).1
+        · cases htc
+    unfold instOf at hi1
+    obtain ⟨t, htin, hsub⟩ := List.any_eq_true.mp hi1
+    obtain ⟨d, hdm, htd⟩ := vtUnion_mem_inv cands ts t hl hts htin
+    have hdok := (List.all_eq_true.mp hl) d hdm
+    simp only [candOk, Bool.and_eq_true, Bool.not_eq_true'] at hdok
+    rw [unionStrong_hit env cands hd hl p w1 d hdm t htd hsub] at hk
+    simp only at hk
+    obtain ⟨hty, hp'⟩ := apply_leaf_ty env d t htd hdok.2 p w1 w' hp1 hsub hk
+    have hidem := apply_idem_frag env d (fragList_mem cands hfr d hdm) p w1 w' hk
+    refine ⟨hp', ?_⟩
+    have hi' : instOf env w' ts = true := by
+      unfold instOf
+      exact List.any_eq_true.mpr ⟨t, htin, by rw [hty]; exact hsub⟩
+    rw [typeCheck_inst env ts w' hi']
+    simp only
+    rw [unionStrong_hit env cands hd hl p w' d hdm t htd (by rw [hty]; exact hsub)]
+    exact hidem
+
 end Pg.Typing
